@@ -160,6 +160,31 @@ func runC15(w *World, r *Report) {
 		r.Check(isDrop, "C15-R4", cons+" | drop key", mu.Pos(), "key = result 1 of util.Get*InfoKeys", "the table is keyed by something other than the drop key of util.Get*InfoKeys: the writer will never find the entry")
 	})
 
+	// ---------- R6 the horizon base is the SOURCE time only
+	r.Rule("C15-R6", "horizons are measured on the source clock", "the time handed to ComposeTSByTime in GetAllDroppedObj derives from the TSO key read from the source catalog only: no local clock (time.Now / time.Since) flows into it", 1)
+	nCompose := 0
+	eachInstr(fn, func(in ssa.Instruction) {
+		c, ok := in.(*ssa.Call)
+		if !ok || callSym(c.Common()).name != "ComposeTSByTime" {
+			return
+		}
+		nCompose++
+		cons := fmt.Sprintf("(*EtcdOp).GetAllDroppedObj | ComposeTSByTime#%d time argument", nCompose)
+		local := ""
+		for _, x := range backSlice(callArgs(c.Common())[0], SliceOpts{MaxDepth: 10, ThroughArg: func(cc *ssa.CallCommon) []ssa.Value { return callArgs(cc) }}) {
+			if cc, isCall := x.(*ssa.Call); isCall {
+				cs := callSym(cc.Common())
+				if cs.pkg == "time" && (cs.name == "Now" || cs.name == "Since" || cs.name == "Until") {
+					local = "time." + cs.name
+				}
+			}
+		}
+		r.Check(local == "", "C15-R6", cons, c.Pos(), "derives from the parsed TSO key only", "the CDC host's own clock ("+local+") flows into the source time the horizons are computed from: with the source clock ahead of the local one the horizons end before the actual drop and dropped objects' operations are not skipped")
+	})
+	if nCompose == 0 {
+		r.Undecided("C15-R6", "(*EtcdOp).GetAllDroppedObj | ComposeTSByTime", fn.Pos(), "no ComposeTSByTime call found: the horizon base is not understood")
+	}
+
 	// ---------- R4 roles at every key-function call in reader + writer
 	roleOf := func(v ssa.Value) string {
 		if s, ok := constString(v); ok && s == "" {
